@@ -60,3 +60,10 @@ Theorem C08_run_skip_protected_entry_kept : forall s sort_opt count p es,
    ~ In (fst e) (cr_obsolete_tests (snd (clean_run s sort_opt count)))).
 Proof. exact run_skip_protected_entry_kept. Qed.
 Print Assumptions C08_run_skip_protected_entry_kept.
+
+(* non-vacuity: the entry of a sub-test of a test that called snaps.Skip survives a whole Clean run in every mode *)
+Example C08_run_example : forall u sort_opt,
+  let s := RunExample.st u in
+  In RunExample.prot (run_entries s sort_opt 1 RunExample.snap RunExample.es) /\
+  ~ In (fst RunExample.prot) (cr_obsolete_tests (snd (clean_run s sort_opt 1))).
+Proof. intros u so. destruct (RunExample.theorems_apply u so) as [_ [_ [_ [H1 [H2 _]]]]]. split; assumption. Qed.
